@@ -14,7 +14,8 @@ from lib import gz, gtext, glist, gbool, gopt, gpair
 
 THEOREMS = ['C11_hit', 'C11_exactly_named', 'C11_miss', 'C11_other_namespace_miss',
             'C11_near_miss', 'C11_construct_iff', 'C11_permutation', 'C11_duplicate_rejected',
-            'C11_dispatch_channels', 'C11_http_unambiguous', 'C11_http_fallback']
+            'C11_dispatch_channels', 'C11_http_unambiguous', 'C11_http_fallback',
+            'C11_pattern_order', 'C11_identical_pattern_rejected', 'C11_permutation_served']
 
 IMPORTS = 'From SpyneV Require Import Base.Prelude C11.Model.'
 
@@ -109,6 +110,7 @@ def classify(phase, e):
         if t == 'ValueError' and 'have conflicting names' in msg: return 4
         if t == 'ValueError' and 'is already taken by another method' in msg: return 5
         if t == 'ValueError' and 'defined in both' in msg: return 6
+        if t == 'ValueError' and 'answer to the same requests' in msg: return 7
     return 99
 
 def construct_real(spec, prot='http', out_prot=None):
@@ -128,6 +130,15 @@ def construct_real(spec, prot='http', out_prot=None):
         return None, classify('app', e), '%s@%s' % (type(e).__name__, site_of(e))
     return app, 0, ''
 
+def serve_real(app):
+    """WsgiApplication(app) -> (wsgi | None, code, info, [(address, verb, endpoint name)])"""
+    S = _spyne()
+    try:
+        w = S['WsgiApplication'](app)
+    except Exception as e:
+        return None, classify('srv', e), '%s@%s' % (type(e).__name__, site_of(e)), []
+    return w, 0, '', [(p.address, p.verb, p.endpoint.name) for p in w._http_patterns]
+
 def table_of(app):
     return [(k, [d.function._uid for d in v]) for k, v in app.interface.service_method_map.items()]
 
@@ -136,8 +147,9 @@ class Driver(object):
     def __init__(self, app, prot, tns):
         S = _spyne()
         self.app, self.prot, self.tns = app, prot, tns
-        self.wsgi = S['WsgiApplication'](app)
-        self.patterns = [(p.address, p.verb, p.endpoint.name) for p in self.wsgi._http_patterns]
+        self.wsgi, code, info, self.patterns = serve_real(app)
+        if self.wsgi is None:
+            raise RuntimeError('server rejected: %s' % info)
 
     def call(self, req):
         """req: dict(kind=..., ...) -> (status, body, invoked uids) ; exceptions -> ('crash', name, uids)"""
@@ -281,21 +293,46 @@ def addr_regex(a):
             i += 1
     return re.compile(''.join(out))
 
-def http_expected(spec, verb, path):
-    """which public name does an HTTP request name?  ('pattern', names matching) or ('segment', name)"""
-    p = path if path.startswith('/') else '/' + path
-    hits = []
+def resolved_patterns(spec, primary_only=True):
+    """[(address as the server sees it, verb, public name, uid)] of the methods' HttpPatterns"""
+    out = []
     for s, m in spec_methods(spec):
-        if is_aux(s, m):
-            continue          # only the primary method's patterns are routes
+        if primary_only and is_aux(s, m):
+            continue
         for pt in m.get('patterns', []):
             a = pt.get('address')
             if a is None:
                 a = public_name(m)
-            if pt.get('verb') is not None and pt['verb'] != verb:
-                continue
-            if addr_regex(a).fullmatch(p):
-                hits.append(public_name(m))
+            if not a.startswith('/'):
+                a = '/' + a
+            out.append((a, pt.get('verb'), public_name(m), m['uid']))
+    return out
+
+def identical_patterns(spec):
+    """two primary methods of different names that carry an HttpPattern with the same address and verb"""
+    seen = {}
+    for a, v, n, uid in resolved_patterns(spec):
+        if seen.setdefault((a, v), n) != n:
+            return (a, v, seen[(a, v)], n)
+    return None
+
+def aux_patterns(spec):
+    return [x for x in resolved_patterns(spec, primary_only=False) if x not in resolved_patterns(spec)]
+
+def http_expected(spec, verb, path):
+    """which public name does an HTTP request name?  ('pattern', names matching) or ('segment', name);
+    ('unspecified', ...) when the path matches an HttpPattern given to an auxiliary method (the property
+    does not say what that means)"""
+    p = path if path.startswith('/') else '/' + path
+    hits = []
+    for a, v, n, uid in resolved_patterns(spec):
+        if v is not None and v != verb:
+            continue
+        if addr_regex(a).fullmatch(p):
+            hits.append(n)
+    for a, v, n, uid in aux_patterns(spec):
+        if (v is None or v == verb) and addr_regex(a).fullmatch(p):
+            return 'unspecified', [n]
     if hits:
         return 'pattern', sorted(set(hits))
     return 'segment', path.split('/')[-1]
@@ -334,17 +371,18 @@ def g_req(r):
         return '(RMsgpackRpc %s)' % gtext(r['key'])
     return '(RHttp %s %s)' % (gtext(r['verb']), gtext(r['path']))
 
-CONSTRUCT_OKB = '(fun c : app * Z * list (text * list Z) => construct_obs_eqb (fst (fst c)) (snd (fst c)) (snd c))'
-CONSTRUCT_SHOW = ('(fun c : app * Z * list (text * list Z) => match construct (fst (fst c)) with '
-                  'Built t => (0, table_view t) | Rejected r => (reject_code r, []) end)')
-DISPATCH_TYPE = 'app * list hpat * list (request * bool * list Z)'
-DISPATCH_OKB = ('(fun c : %s => let \'(a, ps, rs) := c in match construct a with '
-                '| Built t => admissible_order t ps && forallb (fun q : request * bool * list Z => '
-                'outcome_eqb (dispatch (a_tns a) t ps (fst (fst q))) (snd (fst q)) (snd q)) rs '
-                '| Rejected _ => false end)' % DISPATCH_TYPE)
-DISPATCH_SHOW = ('(fun c : %s => let \'(a, ps, rs) := c in match construct a with '
-                 '| Built t => (admissible_order t ps, map (fun q : request * bool * list Z => '
-                 'dispatch (a_tns a) t ps (fst (fst q))) rs) | Rejected _ => (false, []) end)' % DISPATCH_TYPE)
+CONSTRUCT_TYPE = 'app * Z * list (text * list Z) * Z * list hpat'
+CONSTRUCT_OKB = ('(fun c : %s => let \'(a, code, view, scode, ps) := c in construct_obs_eqb a code view scode ps)'
+                 % CONSTRUCT_TYPE)
+CONSTRUCT_SHOW = ('(fun c : %s => let \'(a, code, view, scode, ps) := c in match construct a with '
+                  '| Built t => (0, table_view t, match server_patterns t with Built ps\' => (0, ps\') '
+                  '| Rejected r => (reject_code r, []) end) '
+                  '| Rejected r => (reject_code r, [], (0, [])) end)' % CONSTRUCT_TYPE)
+DISPATCH_TYPE = 'app * list (request * bool * list Z)'
+DISPATCH_OKB = '(fun c : %s => dispatch_obs_eqb (fst c) (snd c))' % DISPATCH_TYPE
+DISPATCH_SHOW = ('(fun c : %s => match serve (fst c) with '
+                 '| Built (t, ps) => (true, map (fun q : request * bool * list Z => '
+                 'dispatch (a_tns (fst c)) t ps (fst (fst q))) (snd c)) | Rejected _ => (false, []) end)' % DISPATCH_TYPE)
 
 # ------------------------------------------------------------------ generators
 BASES = ['foo', 'get', 'a', 'Echo', 'x_1', 'ab', 'put', 'Item']
@@ -367,9 +405,11 @@ def ident(name):
         s = 'f' + s
     return s
 
-def gen_spec(rng, mode):
+def gen_spec(rng, mode, patty=False):
     """mode 'clean': no name shared by two things (must construct in every order);
-       mode 'dirty': collisions of every kind are likely"""
+       mode 'dirty': collisions of every kind are likely;
+       patty: most primary methods carry HttpPatterns, drawn from few addresses (overlaps, ties in the server's
+       sort and, now and then, the same pattern on two methods)"""
     tns = rng.choice(NAMESPACES)
     others = [n for n in NAMESPACES if n != tns]
     bases = rng.sample(BASES, rng.randint(1, 3))
@@ -382,6 +422,7 @@ def gen_spec(rng, mode):
     services = []
     uid = [0]
     used_names, used_fns, used_idents, used_out = set(), set(), set(), set()
+    used_pats = {}
     prim_names = []
     for si in range(nsvc):
         aux = rng.random() < 0.3 and si > 0 or (rng.random() < 0.08)
@@ -442,15 +483,22 @@ def gen_spec(rng, mode):
                 m['suffix'] = rng.choice(['x', '_v2'])
             if mode == 'dirty' and rng.random() < 0.05:
                 m['aux'] = True
-            if not aux and rng.random() < 0.3:
+            if not aux and not m.get('aux') and rng.random() < (0.85 if patty else 0.35):
                 pats = []
                 for _ in range(rng.choice([1, 1, 2])):
-                    a = rng.choice([None, '/' + name, name, '/api/' + name, '/api/<x>', '/<a>/<b>', '/api/<x>/' + name,
+                    a = rng.choice([None, '/' + name, name, '/api/' + name, '/api/<x>', '/api/<x>', '/<a>/<b>', '/api/<x>/' + name,
                                     '/' + rng.choice(pool), '/v1/' + rng.choice(pool)])
                     if a is not None and not re.fullmatch(r'[A-Za-z0-9_/<>-]*', a):
                         a = '/p%d' % uid[0]
-                    pats.append({'address': a, 'verb': rng.choice([None, None, 'GET', 'DELETE', 'get'])})
-                m['patterns'] = pats
+                    v = rng.choice([None, None, 'GET', 'DELETE', 'get'])
+                    ra = a if a is not None else name
+                    ra = ra if ra.startswith('/') else '/' + ra
+                    if mode == 'clean' and used_pats.get((ra, v), name) != name and not (patty and rng.random() < 0.1):
+                        continue                         # the same HttpPattern on two methods: dirty mode only
+                    used_pats[(ra, v)] = name
+                    pats.append({'address': a, 'verb': v})
+                if pats:
+                    m['patterns'] = pats
             methods.append(m)
             pn = public_name(m)
             if not aux:
@@ -494,6 +542,15 @@ def fixed_specs():
                                M(3, 'baz', patterns=[P(None, 'DELETE')]), M(4, 'qux', patterns=[P('zz', 'GET'), P('/zz/<y>')])]))),
         ('default-pattern-dotted-name', A(S('S1', [M(1, 'f1', op='put.x', patterns=[P(None, None)]), M(2, 'foo', patterns=[P(None, 'GET')])]))),
         ('pattern-shadows-name', A(S('S1', [M(1, 'foo', patterns=[P('/bar')]), M(2, 'bar')]))),
+        ('identical-patterns', A(S('S1', [M(1, 'foo', patterns=[P('/x')]), M(2, 'bar', patterns=[P('/x')])]))),
+        ('identical-patterns-two-services', A(S('S1', [M(1, 'foo', patterns=[P('/api/<x>', 'GET')])]),
+                                             S('S2', [M(2, 'bar', patterns=[P('/y'), P('api/<x>', 'GET')])]))),
+        ('identical-default-pattern', A(S('S1', [M(1, 'foo', patterns=[P(None, 'GET')]), M(2, 'bar', patterns=[P('/foo', 'GET')])]))),
+        ('tie-patterns', A(S('S1', [M(1, 'foo', patterns=[P('/x')])]), S('S2', [M(2, 'bar', patterns=[P('/x', 'GET')])]),
+                           S('S3', [M(3, 'baz', patterns=[P('/x', 'DELETE')]), M(4, 'qux', patterns=[P('/<y>', 'GET')])]))),
+        ('same-pattern-twice-on-one-method', A(S('S1', [M(1, 'foo', patterns=[P('/x'), P('/x')]), M(2, 'bar', patterns=[P('/x/<y>')])]))),
+        ('aux-with-pattern', A(S('S1', [M(1, 'foo')]), S('S2', [M(2, 'foo', patterns=[P('/p2')])], aux=True),
+                               S('S3', [M(3, 'bar', patterns=[P('/p3')])], aux=True))),
         ('dotted-service-name', A(S('S', [M(1, 'foo')], service_name='a.S'), S('S', [M(2, 'S.foo')], module='gen.a'),
                                   S('S', [M(3, 'foo', inm='{urn:o}foo2')], module='gen.a', service_name='S2'))),
     ]
@@ -570,6 +627,8 @@ def named_by(spec, req):
     if k in ('json', 'msgpackdoc', 'msgpackrpc'):
         return ('name', req['key'])
     how, what = http_expected(spec, req['verb'], req['path'])
+    if how == 'unspecified':
+        return ('unspecified', what)
     if how == 'pattern':
         if len(what) == 1:
             return ('name', what[0])
@@ -580,8 +639,18 @@ def oracle_request(check, spec, perm, prot, req, obs, stats):
     status, body, invoked = obs
     who = named_by(spec, req)
     replay = {'scenario': 'request', 'spec': spec, 'perm': list(perm), 'protocol': prot, 'request': req}
+    if who[0] == 'unspecified':
+        stats['unspecified'] = stats.get('unspecified', 0) + 1
+        return
     if who[0] == 'ambiguous':
+        # HttpPatterns of several methods match: which one wins is the server's documented order; whichever
+        # wins, exactly that method (and its auxiliaries) must run
         stats['ambiguous'] = stats.get('ambiguous', 0) + 1
+        cands = [expected_for(spec, n) for n in who[1]]
+        if status == 'crash' or not any(invoked[:1] == pr[:1] and sorted(invoked[1:]) == sorted(ax) for pr, ax in cands):
+            check.fail('C11|dispatch|http|overlapping-patterns|not-exactly-one-method',
+                       'request %r matches the HttpPatterns of %r; functions run: %r (status %r) is not exactly one of '
+                       'these methods with its auxiliaries' % (req, who[1], invoked, status), replay)
         return
     if who[0] == 'none':
         prim, aux = [], []
@@ -616,21 +685,30 @@ def oracle_request(check, spec, perm, prot, req, obs, stats):
                    % (req, who[1], prim, aux, invoked, status), replay)
 
 def oracle_construct(check, spec, results, stats):
-    """results: list of (perm, code, info, view) over permutations of the service list"""
-    ok = [r for r in results if r[1] == 0]
-    bad = [r for r in results if r[1] != 0]
+    """results: list of (perm, code, info, view, scode, sinfo, patterns) over permutations of the service list;
+    code = Application(...), scode = WsgiApplication(app) (0 = built)"""
+    ok = [r for r in results if r[1] == 0 and r[4] == 0]
+    bad = [r for r in results if r[1] != 0 or r[4] != 0]
+    why = lambda r: r[2] if r[1] != 0 else r[5]
     replay = {'scenario': 'construct', 'spec': spec, 'perms': [list(r[0]) for r in results]}
     if ok and bad:
-        check.fail('C11|construct|order-dependent|%s' % bad[0][2],
-                   'the application is built with service order %r but rejected (%s) with order %r'
-                   % (list(ok[0][0]), bad[0][2], list(bad[0][0])), replay)
-    if spec_clean(spec) and bad:
-        check.fail('C11|construct|clean-application-rejected|%s' % bad[0][2],
-                   'no two methods, messages or services share a name, yet construction fails (%s) with order %r'
-                   % (bad[0][2], list(bad[0][0])), replay)
-    if spec_valid(spec) and has_duplicate_primary(spec) and ok:
+        check.fail('C11|construct|order-dependent|%s' % why(bad[0]),
+                   'the application is built and served with service order %r but rejected (%s) with order %r'
+                   % (list(ok[0][0]), why(bad[0]), list(bad[0][0])), replay)
+    if spec_clean(spec) and identical_patterns(spec) is None and bad:
+        check.fail('C11|construct|clean-application-rejected|%s' % why(bad[0]),
+                   'no two methods, messages, services or HttpPatterns share a name, yet construction fails (%s) with order %r'
+                   % (why(bad[0]), list(bad[0][0])), replay)
+    if spec_valid(spec) and has_duplicate_primary(spec) and any(r[1] == 0 for r in results):
         check.fail('C11|construct|duplicate-primary-name-accepted',
-                   'two primary methods answer to the same name and the application was built (order %r)' % (list(ok[0][0]),), replay)
+                   'two primary methods answer to the same name and the application was built (order %r)'
+                   % ([list(r[0]) for r in results if r[1] == 0][0],), replay)
+    dup = identical_patterns(spec)
+    if dup is not None and ok:
+        check.fail('C11|http-pattern|identical-pattern-on-two-methods|accepted',
+                   'methods %r and %r both carry HttpPattern(%r, verb=%r); neither Application nor WsgiApplication '
+                   'rejects it (service order %r): which of the two answers is decided by set iteration order'
+                   % (dup[2], dup[3], dup[0], dup[1], list(ok[0][0])), replay)
     if len(ok) > 1:
         def canon(view):
             # per key: the primary (head, if the name has one) and the multiset of the rest
@@ -647,25 +725,54 @@ def oracle_construct(check, spec, results, stats):
                            'service order %r gives routes %r, order %r gives %r' % (list(ok[0][0]), ok[0][3], list(r[0]), r[3]), replay)
                 break
     for r in bad:
-        if r[1] == 99:
+        if r[1] == 99 or r[4] == 99:
             stats['unclassified'] = stats.get('unclassified', 0) + 1
 
-def oracle_identical_patterns(check):
-    """two methods with the identical HttpPattern answer to the same (verb, host, path) name"""
-    spec = {'tns': 'urn:t', 'services': [{'module': 'gen', 'cls': 'S1', 'service_name': None, 'aux': False, 'methods': [
-        {'uid': 1, 'fn': 'foo', 'patterns': [{'address': '/x', 'verb': None}]},
-        {'uid': 2, 'fn': 'bar', 'patterns': [{'address': '/x', 'verb': None}]}]}]}
-    app, code, info = construct_real(spec, 'http')
-    try:
-        drv = Driver(app, 'http', 'urn:t')
-    except Exception as e:
+def concretise(address, fill='q'):
+    return re.sub(r'<[A-Za-z0-9_]+>', fill, address)
+
+def oracle_pattern_order(check, spec, perms, stats, rebuilds):
+    """Which method answers a request that matches the HttpPatterns of several methods must not depend on the
+    order of the service list, nor vary from one construction of the same application to the next.  Builds the
+    application `rebuilds` times in each of the given orders and, where two servers try their patterns in a
+    different order, drives the request that tells them apart through both."""
+    if len(set((a, v, n) for a, v, n, u in resolved_patterns(spec))) < 2 or aux_patterns(spec):
         return
-    st, body, inv = drv.call({'kind': 'http', 'verb': 'GET', 'path': '/x'})
-    check.count(('identical-patterns',))
-    check.fail('C11|http-pattern|identical-pattern-on-two-methods|accepted',
-               'two methods carry the identical HttpPattern("/x"); neither Application nor WsgiApplication rejects it and '
-               'GET /x ran %r (the winner is decided by set iteration order)' % (inv,),
-               {'scenario': 'identical-patterns', 'spec': spec})
+    servers = []
+    for perm in perms:
+        for k in range(rebuilds):
+            sp = permuted(spec, perm)
+            app, code, info = construct_real(sp, 'http')
+            if app is None:
+                return
+            w, scode, sinfo, pats = serve_real(app)
+            if w is None:
+                return
+            servers.append((perm, Driver(app, 'http', sp['tns']), pats))
+    stats['pattern_order_specs'] = stats.get('pattern_order_specs', 0) + 1
+    check.count(('pattern-order', json.dumps(spec, sort_keys=True)))
+    p0, d0, l0 = servers[0]
+    for p1, d1, l1 in servers[1:]:
+        if l1 == l0:
+            continue
+        stats['pattern_order_varies'] = stats.get('pattern_order_varies', 0) + 1
+        for x, y in zip(l0, l1):
+            if x == y:
+                continue
+            # x and y tie in the server's sort: same address
+            for verb in [v for v in (x[1], y[1], 'GET') if v is not None]:
+                for fill in ('q', 'zz'):
+                    req = {'kind': 'http', 'verb': verb, 'path': concretise(x[0], fill)}
+                    o0, o1 = d0.call(req), d1.call(req)
+                    if (o0[2][:1], sorted(o0[2][1:])) != (o1[2][:1], sorted(o1[2][1:])):
+                        check.fail('C11|http-pattern|equal-address|winner-varies-between-constructions',
+                                   'request %r ran functions %r on one server and %r on another server of the same '
+                                   'application (service orders %r and %r): patterns %r and %r tie in HttpBase\'s sort and keep '
+                                   'the iteration order of a set' % (req, o0[2], o1[2], list(p0), list(p1), x, y),
+                                   {'scenario': 'pattern-order', 'spec': spec, 'perms': [list(p) for p in perms],
+                                    'rebuilds': max(rebuilds, 8), 'request': req})
+                        return
+            break
 
 # ------------------------------------------------------------------ the check
 def all_perms(rng, n, limit):
@@ -677,7 +784,7 @@ def all_perms(rng, n, limit):
     rng.shuffle(rest)
     return [ident, tuple(reversed(ident))] + [p for p in rest if p != tuple(reversed(ident))][:limit - 2]
 
-def run_spec(check, label, spec, tier, stats, ccases, dcases, full_requests=True):
+def run_spec(check, label, spec, tier, stats, ccases, dcases, full_requests=True, protocols=PROTOCOLS):
     rng = check.rng
     n = len(spec['services'])
     perms = all_perms(rng, n, 24 if tier == 'quick' else 120)
@@ -686,22 +793,28 @@ def run_spec(check, label, spec, tier, stats, ccases, dcases, full_requests=True
         sp = permuted(spec, perm)
         app, code, info = construct_real(sp, 'http')
         view = table_of(app) if app is not None else []
-        results.append((perm, code, info, view))
-        ccases.append(('(%s, %s, %s)' % (g_app(sp), gz(code), g_view(view)),
-                       'construct %s perm=%r -> code %d %s' % (label, list(perm), code, info)))
+        scode, sinfo, pats = 0, '', []
+        if app is not None:
+            w, scode, sinfo, pats = serve_real(app)
+        results.append((perm, code, info, view, scode, sinfo, pats))
+        ccases.append(('(%s, %s, %s, %s, %s)' % (g_app(sp), gz(code), g_view(view), gz(scode), g_hpats(pats)),
+                       'construct %s perm=%r -> Application: code %d %s; WsgiApplication: code %d %s'
+                       % (label, list(perm), code, info, scode, sinfo)))
         check.count(('construct', json.dumps(sp, sort_keys=True)))
         stats['construct'] = stats.get('construct', 0) + 1
-        stats['code%d' % code] = stats.get('code%d' % code, 0) + 1
+        stats['code%d' % (code or scode)] = stats.get('code%d' % (code or scode), 0) + 1
     oracle_construct(check, spec, results, stats)
-    okperms = [r[0] for r in results if r[1] == 0]
+    okperms = [r[0] for r in results if r[1] == 0 and r[4] == 0]
     if not okperms:
         return
+    oracle_pattern_order(check, spec, [okperms[0], okperms[-1]] if len(okperms) > 1 else okperms, stats,
+                         3 if tier == 'quick' else 6)
     # requests: identity order (or the first order that builds) with every protocol, one more order with two protocols
     plan = [(okperms[0], list(PROTOCOLS))]
     if len(okperms) > 1:
         plan.append((okperms[-1], [rng.choice(PROTOCOLS), 'http']))
     if not full_requests:
-        plan = [(okperms[0], [rng.choice(PROTOCOLS)])]
+        plan = [(okperms[0], [rng.choice(protocols)])]
     for perm, prots in plan:
         sp = permuted(spec, perm)
         for prot in prots:
@@ -726,7 +839,7 @@ def run_spec(check, label, spec, tier, stats, ccases, dcases, full_requests=True
                 stats['requests'] = stats.get('requests', 0) + 1
                 stats['req_' + prot] = stats.get('req_' + prot, 0) + 1
             for i in range(0, len(obs_terms), 40):
-                dcases.append(('(%s, %s, %s)' % (g_app(sp), g_hpats(drv.patterns), glist(obs_terms[i:i + 40])),
+                dcases.append(('(%s, %s)' % (g_app(sp), glist(obs_terms[i:i + 40])),
                                'dispatch %s perm=%r prot=%s requests %d..%d: %s' % (
                                    label, list(perm), prot, i, i + 40, json.dumps(reqs[i:i + 40])[:1500])))
             if len(check.samples) < 10 and reqs:
@@ -769,13 +882,15 @@ def run(check):
     ccases, dcases = [], []
     for label, spec in fixed_specs():
         run_spec(check, label, spec, tier, stats, ccases, dcases)
-    nclean, ndirty = (110, 110) if tier == "quick" else (900, 900)
+    nclean, ndirty, npatty = (100, 100, 60) if tier == "quick" else (900, 900, 500)
     for i in range(nclean):
         run_spec(check, 'clean%d' % i, gen_spec(rng, 'clean'), tier, stats, ccases, dcases, full_requests=(i % 3 == 0 or tier != 'quick'))
     for i in range(ndirty):
         run_spec(check, 'dirty%d' % i, gen_spec(rng, 'dirty'), tier, stats, ccases, dcases, full_requests=(i % 3 == 0 or tier != 'quick'))
-    oracle_identical_patterns(check)
-    lib.correspond(check, 'construct', IMPORTS, 'app * Z * list (text * list Z)', CONSTRUCT_OKB, ccases,
+    for i in range(npatty):
+        run_spec(check, 'patty%d' % i, gen_spec(rng, 'clean', patty=True), tier, stats, ccases, dcases, full_requests=False,
+                 protocols=['http'])
+    lib.correspond(check, 'construct', IMPORTS, CONSTRUCT_TYPE, CONSTRUCT_OKB, ccases,
                    shard=150, show=CONSTRUCT_SHOW)
     lib.correspond(check, 'dispatch', IMPORTS, DISPATCH_TYPE, DISPATCH_OKB, dcases, shard=60, show=DISPATCH_SHOW)
     bad = lib.flush_correspondences(check)
@@ -806,8 +921,13 @@ def replay(check, path):
         for perm in rp['perms']:
             sp = permuted(rp['spec'], perm)
             app, code, info = construct_real(sp, 'http')
-            results.append((tuple(perm), code, info, table_of(app) if app is not None else []))
-            print('order %r -> %s %s' % (perm, 'built' if code == 0 else 'rejected', info))
+            scode, sinfo, pats = 0, '', []
+            if app is not None:
+                w, scode, sinfo, pats = serve_real(app)
+            results.append((tuple(perm), code, info, table_of(app) if app is not None else [], scode, sinfo, pats))
+            print('order %r -> Application %s %s; WsgiApplication %s %s' % (
+                perm, 'built' if code == 0 else 'rejected', info,
+                '-' if code != 0 else 'built' if scode == 0 else 'rejected', sinfo))
         oracle_construct(check, rp['spec'], results, stats)
     elif sc == 'request':
         sp = rp['spec']
@@ -815,12 +935,17 @@ def replay(check, path):
         if app is None:
             print('application is rejected now: %s' % info)
         else:
-            drv = Driver(app, rp['protocol'], sp['tns'])
+            try:
+                drv = Driver(app, rp['protocol'], sp['tns'])
+            except RuntimeError as e:
+                print('%s' % e)
+                return _finish_replay(check)
             obs = drv.call(rp['request'])
             print('request -> status %r, functions run %r' % (obs[0], obs[2]))
             oracle_request(check, sp, tuple(rp['perm']), rp['protocol'], rp['request'], obs, stats)
-    elif sc == 'identical-patterns':
-        oracle_identical_patterns(check)
+    elif sc == 'pattern-order':
+        oracle_pattern_order(check, rp['spec'], [tuple(p) for p in rp['perms']], stats, rp.get('rebuilds', 8))
+        print('pattern-order: %r' % (stats,))
     else:
         print('nothing to re-run for this replay (broken obligation / correspondence)')
     return _finish_replay(check)
